@@ -356,6 +356,15 @@ def run_shape(tools, W, shape):
             plan = '%d:%s' % (idx[0], 'EAGAIN' if shape.prog.fault == 'fork' else 'ECHILD')
             scen.reset()
             r = scen.run(fail=plan)
+        # a race of the HARNESS, not of mdsort: the scenarios run in threads of one Python process, and while another thread is between
+        # fork and exec of its own child, that child still holds every descriptor of this process - also the one a third thread has open
+        # for WRITING on a script it is just creating; execvp of that script then fails with ETXTBSY ("Text file busy").  Such a run says
+        # nothing about mdsort: it is repeated (the file is complete and closed by then).
+        for _ in range(3):
+            if b'Text file busy' not in r.err:
+                break
+            scen.reset()
+            r = scen.run(fail=plan) if plan else scen.run()
         probs = judge(shape, scen, r)
         # exec actions AND `command` conditions are in the world model (Model.evalP: a condition issues open("/dev/null"), fork, waitpid,
         # close while the rules are evaluated): every run follows Model.mainP call by call
